@@ -127,6 +127,11 @@ def packages():
     # ---- versions: the same shapes in a versioned package
     out.append(pkg([types_i, kk], [world("w", ("import", "iface", "k"), ("export", "iface", "types"))], ver="1.2.0"))
     out.append(pkg([fi, fj], [world("w", ("import", "iface", "i"), ("export", "iface", "j"))], ver="0.2.1"))
+    # an alias of a borrowed handle used in parameter position (an alias of the resource itself is the resource,
+    # which Decl.tla does not model: left out)
+    out.append(pkg([iface("h", ("res", "thing", [("method", "get", [], U32)]),
+                          ("type", "bh", ("borrow", "thing")),
+                          ("func", "peek", [("x", ref("bh"))], U32), ("func", "take", [("x", ref("thing")), ("y", ref("bh"))], None))]))
     # every interface also as the import and as the export of a world, so that C08 gets a real component for it
     for p in out:
         if not p["worlds"]:
